@@ -9,6 +9,7 @@ import json
 import os
 import random
 import shutil
+import zlib
 
 from hedmon.core import env, faults
 
@@ -186,7 +187,14 @@ def run_history_case(case, rec):
     base = os.path.join(env.scratch(), f"c18h-{os.getpid()}")
     shutil.rmtree(base, ignore_errors=True)
     root = os.path.join(base, "data")
-    os.makedirs(root)
+    if zlib.crc32(str(case["seed"]).encode()) % 3 == 0:
+        # the data root reached through a symbolic link (a study directory linked into a work area)
+        os.makedirs(os.path.join(base, "study_v2"))
+        os.symlink(os.path.join(base, "study_v2"), root)
+        rec.count("root-kind", "symbolic-link")
+    else:
+        os.makedirs(root)
+        rec.count("root-kind", "plain")
     try:
         originals = make_tree(root, rng, big=False)
         rels = sorted(originals)
@@ -298,12 +306,20 @@ def run_history_case(case, rec):
                                   dict(case_now, files=bad[:5]))
                     return
             elif op == "restore-tasks":
-                tasks = rng.sample(["A", "B", "rest"], rng.randrange(1, 3))
+                # (task names that no file carries: nothing at all is to be restored)
+                tasks = rng.sample(["A", "B", "rest", "nogo", "Z9"], rng.randrange(1, 3))
                 before = tree_bytes(root, rels)
                 with faults.Tracer(root) as log:
-                    BackupManager(root).restore_backup(name, task_names=tasks, verbose=False)
-                written = {os.path.relpath(e[2], os.path.realpath(root)) for e in log if e[0] == "shutil.copyfile"}
-                written |= {os.path.relpath(e[1], os.path.realpath(root)) for e in log if e[0] == "open-w"}
+                    if zlib.crc32(repr((case["seed"], len(ops))).encode()) % 2 == 0:
+                        run_remodel_restore.main([root, "-t"] + tasks)
+                        rec.count("task-restore-entry", "command-line")
+                    else:
+                        BackupManager(root).restore_backup(name, task_names=tasks, verbose=False)
+                        rec.count("task-restore-entry", "manager")
+                if not any(("task_" + t) in os.path.basename(r) for t in tasks for r in rels):
+                    rec.count("task-restore-entry", "no-file-of-the-requested-tasks")
+                written = {os.path.relpath(os.path.realpath(e[2]), os.path.realpath(root)) for e in log if e[0] == "shutil.copyfile"}
+                written |= {os.path.relpath(os.path.realpath(e[1]), os.path.realpath(root)) for e in log if e[0] == "open-w"}
                 rec.mon("task-restore-touches-only-tasks")
                 foreign = [w for w in written if not any(("task_" + t) in os.path.basename(w) or ("task-" + t) in os.path.basename(w)
                                                          for t in tasks)]
@@ -373,6 +389,10 @@ def run_history_case(case, rec):
             rec.violation("after a full restore a backed-up file differs from its content at backup time",
                           dict(case, ops=ops, files=[r for r in rels if now[r] != originals[r]][:5]))
         case["ops"] = ops
+    except Exception as ex:  # noqa
+        # every step of a history is legal: no manager, backup, restore or remodel call in it may raise
+        rec.violation(f"a step of a legal backup / restore history raised {type(ex).__name__}",
+                      dict(case, ops=list(locals().get("ops") or []), message=str(ex)[:200]))
     finally:
         shutil.rmtree(base, ignore_errors=True)
 
@@ -394,3 +414,12 @@ def replay(case, rec):
         run_history_case(dict(kind="history", seed=case["seed"]), rec)
     else:
         print("crash cases are replayed by re-running the check (trees are regenerated from the seed)")
+
+
+def finalize(merged, tier, inconclusive):
+    got = merged.hist.get("root-kind", {}).get("symbolic-link", 0)
+    if got < 8:
+        inconclusive.append(f"histories on a data root reached through a symbolic link: {got} (< 8)")
+    got = merged.hist.get("task-restore-entry", {}).get("no-file-of-the-requested-tasks", 0)
+    if got < 5:
+        inconclusive.append(f"task-restricted restores naming only tasks that no file carries: {got} (< 5)")
